@@ -332,6 +332,7 @@ def sweep(ctx, pid, exe, jobs, make_ops, oracle, timeout=None, extra_known=None,
     results = pmap(work, jobs)
     distinct = set()
     out = []
+    searched = [0]
     for job, ops, d, (bad, info), tr in results:
         ctx.count("evaluations")
         if ops is None:
@@ -364,6 +365,18 @@ def sweep(ctx, pid, exe, jobs, make_ops, oracle, timeout=None, extra_known=None,
                 ctx.violation("%s fails on the real code: %s (%s %s)" % (pid, bad[0][1], create_line(job["cfg"]), job["env"]), rep)
             else:
                 rep["correspondence"] = {"at": d[1], "real": d[2], "model": d[3]}
+                # model and code disagree on this configuration but the property's own oracle was satisfied on this stream: search the
+                # configuration (other stream lengths and schedules) for an input on which the property itself fails
+                found = None
+                if searched[0] < 4:
+                    searched[0] += 1
+                    found = find_input(exe, job, make_ops, oracle)
+                if found:
+                    j2, ops2, bad2 = found
+                    ctx.violation("%s fails on the real code: %s (%s %s) - found by searching the configuration on which the Lean count model and the real "
+                                  "code disagree (at %s)" % (pid, bad2[0][1], create_line(j2["cfg"]), j2["env"], d[1]),
+                                  {"cfg": j2["cfg"], "env": j2["env"], "N": j2.get("N"), "ops": ops2, "oracle": bad2, "correspondence": rep["correspondence"]})
+                    continue
                 ctx.violation("correspondence broken (Lean count model vs real code) at %s:\n real : %s\n model: %s\n (%s)" % (
                     d[1], d[2][:400], d[3][:400], create_line(job["cfg"])), rep, no_input=True)
         else:
@@ -372,6 +385,32 @@ def sweep(ctx, pid, exe, jobs, make_ops, oracle, timeout=None, extra_known=None,
     ctx.cov["distinct_nontrivial"] = ctx.cov.get("distinct_nontrivial", 0) + len(distinct)
     ctx.cov["traces_validated_against_impl"] = ctx.cov.get("traces_validated_against_impl", 0) + len(out)
     return out
+
+
+def find_input(exe, job, make_ops, oracle, tries=8):
+    """other stream lengths / schedules of one configuration through the property's oracle; -> (job, ops, bad) or None"""
+    rng = common.Rng((job.get("seed", 1) ^ 0x5eed) & 0xffffffff)
+    ratio = io_ratio(job["cfg"])
+    for _ in range(tries):
+        n = rng.choice([0, 1, 1000, 5000, 20000, 60000])
+        j2 = dict(job, N=min(n, int(2e5 * ratio) + 3), seed=rng.next() & 0xffffffff)
+        tr0 = run_trace(exe, [create_line(j2["cfg"])], j2["env"], timeout=120)
+        if not tr0.created:
+            return None
+        try:
+            ops = make_ops(j2, tr0.plan)
+        except Exception:
+            return None
+        tr = run_trace(exe, ops, j2["env"], timeout=120)
+        if tr.rc == 0:
+            bad, _ = oracle(j2, tr)
+        elif tr.rc == "timeout":
+            bad = [("hang", "no answer within 120 s")]
+        else:
+            bad = [("crash", "harness exit %s: %s" % (tr.rc, tr.err[-400:]))]
+        if bad:
+            return j2, ops, bad
+    return None
 
 
 def report_broken(ctx, broken, searched):
